@@ -179,15 +179,20 @@ def snap(doc, t):
     return [("Text", "".join(x), {}) if isinstance(x, list) else x for x in out]
 
 
-def approx(a, b):
+def approx(a, b, abs_tol=None):
+    """numbers equal to six significant digits (what the writer keeps); with abs_tol, also when they differ by less than abs_tol:
+    used for COMPUTED snapshot values, where a length near zero is the difference of written lengths near 100 (tts:position from the
+    right/bottom edge) and inherits their absolute, not their relative, rounding error"""
     import ttconv.style_properties as s
     if a is s.GenericFontFamilyType.default: a = s.GenericFontFamilyType.monospaceSerif
     if b is s.GenericFontFamilyType.default: b = s.GenericFontFamilyType.monospaceSerif
     if isinstance(a, (int, float, F)) and isinstance(b, (int, float, F)) and not isinstance(a, bool) and not isinstance(b, bool):
-        a = F(a); b = F(b); return abs(a - b) <= F(1, 10 ** 5) * max(F(1, 10 ** 6), abs(a), abs(b))
+        a = F(a); b = F(b)
+        if abs_tol is not None and abs(a - b) <= abs_tol: return True
+        return abs(a - b) <= F(1, 10 ** 5) * max(F(1, 10 ** 6), abs(a), abs(b))
     if dataclasses.is_dataclass(a) and type(a) is type(b):
-        return all(approx(getattr(a, f.name), getattr(b, f.name)) for f in dataclasses.fields(a))
-    if isinstance(a, tuple) and isinstance(b, tuple): return len(a) == len(b) and all(approx(x, y) for x, y in zip(a, b))
+        return all(approx(getattr(a, f.name), getattr(b, f.name), abs_tol) for f in dataclasses.fields(a))
+    if isinstance(a, tuple) and isinstance(b, tuple): return len(a) == len(b) and all(approx(x, y, abs_tol) for x, y in zip(a, b))
     return a == b
 
 
@@ -196,7 +201,7 @@ def same_snap(a, b):
     for x, y in zip(a, b):
         if x[0] != y[0] or x[1] != y[1]: return f"node {x[:2]} vs {y[:2]}"
         for k in x[2]:
-            if k not in y[2] or not approx(x[2][k], y[2][k]): return f"style {k}: {x[2][k]} vs {y[2].get(k)}"
+            if k not in y[2] or not approx(x[2][k], y[2][k], F(5, 1000)): return f"style {k}: {x[2][k]} vs {y[2].get(k)}"
     return None
 
 
